@@ -203,7 +203,8 @@ func checkC04(P *Program, r *Result, tier string) {
 				if dst == nil || src == nil || dst.Root != ssa.Value(fn.Params[1]) || src.Root == nil || !isLoadOfField(fn, src.Root, "buf") {
 					continue
 				}
-				if fa.proveEq(dst.Off, linConst(0), cc.Block()) && fa.proveEq(src.Off, ri0, cc.Block()) && fa.proveEq(src.Len, m, ret.Block()) {
+				// the count reported is the length of the window copied, or what copy itself reports having taken from its start
+				if fa.proveEq(dst.Off, linConst(0), cc.Block()) && fa.proveEq(src.Off, ri0, cc.Block()) && (fa.proveEq(src.Len, m, ret.Block()) || fa.proveEq(fa.expand(cc), m, ret.Block())) {
 					copied = true
 				}
 			}
@@ -475,6 +476,11 @@ func checkC04(P *Program, r *Result, tier string) {
 			continue
 		}
 		fa := A.fa(fn)
+		for _, c := range callsIn(fn) {
+			if cc, ok := c.(*ssa.Call); ok {
+				fa.externalAllocFacts(cc)
+			}
+		}
 		for _, st := range storesTo(fn, "buf") {
 			kind, ok, detail := classifyBufStore(fa, st)
 			if kind == "extend" {
@@ -530,9 +536,54 @@ func classifyBufStore(fa *FA, st *ssa.Store) (kind string, ok bool, detail strin
 		})
 		return !leak
 	}
+	// the cursor may already have been moved when the store happens (unread := buf[ri:]; ri = 0; …; buf = unread):
+	// windows are compared with the cursor as it was where the value was formed, and ri must be 0 at every exit
+	riZeroAtExits := func() bool {
+		okAll, any := true, false
+		for _, ret := range returnsOf(fn) {
+			if ret.Block() != blk && !reachesWithout(st, ret, func(ssa.Instruction) bool { return false }) {
+				continue
+			}
+			any = true
+			rx := cellIntAt(fa, ret, "ri")
+			if rx == nil || !fa.proveEq(rx, linConst(0), ret.Block()) {
+				okAll = false
+			}
+		}
+		return okAll && any
+	}
+	riAt := func(v ssa.Value) *Lin {
+		if in, ok := v.(ssa.Instruction); ok && in.Block() != nil {
+			return cellIntAt(fa, in, "ri")
+		}
+		return ri
+	}
+	curAt := func(v ssa.Value) *SliceDesc {
+		if in, ok := v.(ssa.Instruction); ok && in.Block() != nil {
+			return cellSliceAt(fa, in, "buf")
+		}
+		return cur
+	}
 	if isNilConst(st.Val) {
 		if cur != nil && ri != nil && fa.prove(ineqLE(cur.Len.sub(ri), linConst(0)), blk, rootCtx) {
 			return "empty window dropped", true, ""
+		}
+		// … or the window taken earlier (unread := buf[ri:]) is known to be empty here
+		for _, b := range fn.Blocks {
+			for _, in := range b.Instrs {
+				sl, ok := in.(*ssa.Slice)
+				if !ok || sl.High != nil || !instrDominates(sl, st) {
+					continue
+				}
+				d := fa.sliceDesc(sl)
+				if d == nil || !isLoadOfField(fn, d.Root, "buf") {
+					continue
+				}
+				r0, c0 := riAt(sl), curAt(sl)
+				if r0 != nil && c0 != nil && fa.proveEq(d.Off, r0, sl.Block()) && fa.prove(ineqLE(d.Len, linConst(0)), blk, rootCtx) && fa.proveEq(d.Len, c0.Len.sub(r0), sl.Block()) {
+					return "empty window dropped", true, ""
+				}
+			}
 		}
 		return "drop", false, "the buffer is dropped although unread bytes may remain"
 	}
@@ -551,6 +602,15 @@ func classifyBufStore(fa *FA, st *ssa.Store) (kind string, ok bool, detail strin
 						fa.proveEq(dst.Off, linConst(0), blk) && ri != nil && fa.proveEq(src.Off, ri, blk) && cur != nil && fa.proveEq(src.Len, cur.Len.sub(ri), blk) && riZeroAfter() {
 						return "compaction to offset 0, ri := 0", true, ""
 					}
+					// the source window may have been taken before the cursor was reset
+					if dst != nil && src != nil && isLoadOfField(fn, dst.Root, "buf") && isLoadOfField(fn, src.Root, "buf") && fa.proveEq(dst.Off, linConst(0), blk) {
+						if sv, isIn := cp.Common().Args[1].(ssa.Instruction); isIn {
+							r0, c0 := riAt(cp.Common().Args[1]), curAt(cp.Common().Args[1])
+							if r0 != nil && c0 != nil && fa.proveEq(src.Off, r0, sv.Block()) && fa.proveEq(src.Len, c0.Len.sub(r0), sv.Block()) && riZeroAtExits() {
+								return "compaction to offset 0 of the window taken earlier, ri = 0 at exit", true, ""
+							}
+						}
+					}
 					return "compaction", false, "copy(buf, buf[ri:]) with buf = buf[:copied] and ri = 0 expected"
 				}
 			}
@@ -558,6 +618,12 @@ func classifyBufStore(fa *FA, st *ssa.Store) (kind string, ok bool, detail strin
 		}
 		if ri != nil && fa.proveEq(d.Off, ri, blk) && cur != nil && fa.proveEq(d.Len, cur.Len.sub(ri), blk) && riZeroAfter() {
 			return "re-slice buf[ri:], ri := 0", true, ""
+		}
+		if r0, c0 := riAt(st.Val), curAt(st.Val); r0 != nil && c0 != nil {
+			vb := st.Val.(ssa.Instruction).Block()
+			if fa.proveEq(d.Off, r0, vb) && fa.proveEq(d.Len, c0.Len.sub(r0), vb) && riZeroAtExits() {
+				return "re-slice buf[ri:] taken earlier, ri = 0 at exit", true, ""
+			}
 		}
 		return "re-slice", false, "offset/length do not describe the unread window"
 	}
@@ -578,9 +644,14 @@ func classifyBufStore(fa *FA, st *ssa.Store) (kind string, ok bool, detail strin
 				if dst == nil || src == nil || dst.Root != d.Root || !isLoadOfField(fn, src.Root, "buf") {
 					continue
 				}
-				if fa.proveEq(dst.Off, ri, blk) && fa.proveEq(src.Off, ri, blk) && fa.proveEq(src.Len, cur.Len.sub(ri), blk) &&
-					fa.proveEq(hi, ri.add(fa.expand(cp)), blk) && fa.proveEq(d.Off, linConst(0), blk) {
-					return "relocation with copy at the same offset", true, ""
+				if fa.proveEq(dst.Off, ri, blk) && fa.proveEq(src.Off, ri, blk) && fa.proveEq(src.Len, cur.Len.sub(ri), blk) && fa.proveEq(d.Off, linConst(0), blk) {
+					// the new length is the cursor plus what was copied; or the old length, when the copy is known to be complete
+					if fa.proveEq(hi, ri.add(fa.expand(cp)), blk) {
+						return "relocation with copy at the same offset", true, ""
+					}
+					if fa.proveEq(hi, ri.add(src.Len), blk) && dst.Len != nil && fa.prove(ineqLE(src.Len, dst.Len), cp.Block(), rootCtx) {
+						return "relocation with a complete copy at the same offset", true, ""
+					}
 				}
 			}
 			return "relocation", false, "the unread window buf[ri:] must be copied to the same offset of the new buffer and the new length be ri + copied"
